@@ -171,6 +171,9 @@ func (e *loopError) Error() string { return e.msg }
 type callCtx struct {
 	args []*Term
 	off  int
+	// a closure expanded at its call: the terms of the captured variables' addresses and the caller's local memory
+	free []*Term
+	mem  localMem
 }
 
 func leaves(fn *ssa.Function, opt LeafOptions) ([]*Leaf, error) {
@@ -453,6 +456,14 @@ func enumerate(fn *ssa.Function, opt LeafOptions, cx *callCtx, cut bool) ([]*Lea
 								}
 							}
 						}
+						if fv, isFree := x.X.(*ssa.FreeVar); isFree && x.Op == token.MUL && len(mem) > 0 {
+							// a captured variable of a closure expanded at its call: what the caller's path stored in it
+							if a := bind[fv]; a != nil && a.Op == OAddr && len(a.Args) == 1 {
+								if v := mem.load(a.Args[0], x.Type()); v != nil {
+									setBind(x, v)
+								}
+							}
+						}
 						if x.Op == token.MUL && len(hp) > 0 {
 							if v := hp.load(b.Addr(x.X)); v != nil {
 								setBind(x, v)
@@ -506,7 +517,11 @@ func enumerate(fn *ssa.Function, opt LeafOptions, cx *callCtx, cut bool) ([]*Lea
 							}
 						}
 					}
-					if callee != nil && len(callee.Blocks) > 0 && (viaTable || opt.Inline(callee)) {
+					var closure *ssa.MakeClosure
+					if mc, isMC := call.Call.Value.(*ssa.MakeClosure); isMC && callee != nil && callee.Parent() != nil && !opt.stack[callee] {
+						closure = mc // a local closure called on the spot
+					}
+					if callee != nil && len(callee.Blocks) > 0 && (viaTable || closure != nil || opt.Inline(callee)) {
 						var args []*Term
 						for _, a := range call.Call.Args {
 							args = append(args, b.Term(a))
@@ -514,7 +529,22 @@ func enumerate(fn *ssa.Function, opt LeafOptions, cx *callCtx, cut bool) ([]*Lea
 						*opt.site++
 						off := *opt.site * 100000
 						tr := func(t *Term) *Term { return Subst(renameLocals(t, off), args) }
-						cl, cerr := leaves(callee, opt)
+						var cl []*Leaf
+						var cerr error
+						if closure != nil {
+							// expanded in the context of the call: the captured variables are the caller's (private.go: a
+							// variable captured by closures that only read it stays private memory of the caller)
+							var free []*Term
+							for _, bd := range closure.Bindings {
+								free = append(free, b.Term(bd))
+							}
+							opt.stack[callee] = true
+							cl, cerr = enumerate(callee, opt, &callCtx{args: args, off: off, free: free, mem: mem}, false)
+							delete(opt.stack, callee)
+							tr = func(t *Term) *Term { return t }
+						} else {
+							cl, cerr = leaves(callee, opt)
+						}
 						if _, isLoop := cerr.(*loopError); isLoop && !opt.stack[callee] {
 							// a loop whose trip count is fixed by this call's arguments: enumerate the callee in context
 							opt.stack[callee] = true
@@ -691,7 +721,18 @@ func enumerate(fn *ssa.Function, opt LeafOptions, cx *callCtx, cut bool) ([]*Lea
 			}
 		}
 	}
-	walk(fn.Blocks[0], nil, state{phi: map[*ssa.Phi]ssa.Value{}, bind: bind0, mem: localMem{}, bs: bstate{}, hp: heapMem{}})
+	mem0 := localMem{}
+	if cx != nil {
+		for i, fv := range fn.FreeVars {
+			if i < len(cx.free) && cx.free[i] != nil {
+				bind0[fv] = cx.free[i]
+			}
+		}
+		if cx.mem != nil {
+			mem0 = cx.mem
+		}
+	}
+	walk(fn.Blocks[0], nil, state{phi: map[*ssa.Phi]ssa.Value{}, bind: bind0, mem: mem0, bs: bstate{}, hp: heapMem{}})
 	if err != nil {
 		return nil, err
 	}
